@@ -61,6 +61,10 @@ pub struct HedgeCase {
     /// attempts run (and fail) on other worker threads while the fan-out is still going on
     #[serde(default)]
     pub stress: Option<HedgeStress>,
+    /// the service and the layer are dropped as soon as call() has returned the response future
+    /// (`svc.oneshot(req)`)
+    #[serde(default)]
+    pub drop_service: bool,
 }
 
 #[derive(Clone, Debug, Serialize, Deserialize)]
@@ -94,6 +98,7 @@ fn stress_strategy(tier: Tier) -> BoxedStrategy<HedgeCase> {
             poll_delay: 0,
             spawned_first: false,
             listeners: true,
+            drop_service: false,
             stress: Some(HedgeStress {
                 max,
                 fail_first: fail_first.min(max),
@@ -239,9 +244,10 @@ fn case_strategy(_tier: Tier) -> BoxedStrategy<HedgeCase> {
             prop_oneof![4 => Just(0u64), 1 => 1u64..=120, 1 => (1u64..=10).prop_map(|k| k * 10)],
             prop::bool::weighted(0.35),
             prop::bool::weighted(0.3),
+            prop::bool::weighted(0.3),
         ),
     )
-        .prop_map(|(max, delay, attempts, order, step_ms, max_last, (clone_ready_ms, drain_budget, poll_delay, spawned_first, listeners))| HedgeCase {
+        .prop_map(|(max, delay, attempts, order, step_ms, max_last, (clone_ready_ms, drain_budget, poll_delay, spawned_first, listeners, drop_service))| HedgeCase {
             max,
             delay,
             attempts,
@@ -255,6 +261,7 @@ fn case_strategy(_tier: Tier) -> BoxedStrategy<HedgeCase> {
             spawned_first,
             listeners,
             stress: None,
+            drop_service,
         })
         .boxed()
 }
@@ -347,6 +354,10 @@ async fn interp(case: &HedgeCase) -> Verdict {
     };
     let _ = futures::future::poll_fn(|cx| svc.poll_ready(cx)).await;
     let fut = svc.call(req.clone());
+    let mut keep_alive = Some((svc, layer));
+    if case.drop_service {
+        keep_alive = None;
+    }
     // the future may sit un-polled for a while (collected first, driven later)
     if case.poll_delay > 0 {
         sim.advance(case.poll_delay).await;
@@ -550,6 +561,10 @@ async fn interp(case: &HedgeCase) -> Verdict {
     if case.listeners {
         classes.push("event_listeners_registered");
     }
+    if case.drop_service {
+        classes.push("service_dropped_right_after_call");
+    }
+    let _ = &keep_alive;
     if case.spawned_first {
         classes.push("attempts_run_before_the_hedging_future_each_instant");
     }
